@@ -289,3 +289,19 @@ Definition hist_model (inp : list N) : list N :=
                e <- enc_steps cf l ;;
                Ok (e ++ [if cf_track cf then N.of_nat (total_leaked l) else 0%N]))
   end.
+
+(** * Zero-sized element types: the same machine observed through counts only
+    (family 2).  Per step: outcome, dimensions, [data().len()], live elements. *)
+Definition enc_step_zst (h : hstate) (ob : hobs) : list N :=
+  let t := h_td h in
+  [if ob_ok ob then 1%N else 0%N; N.of_nat (num_cols t); N.of_nat (num_rows t);
+   N.of_nat (length (data t)); N.of_nat (length (data t))].
+
+Definition zst_model (inp : list N) : list N :=
+  match run_parser p_hist inp with
+  | None => BAD_CASE
+  | Some (cf, ops) =>
+      enc_res (l <- hrun cf h_init ops ;;
+               Ok (concat (map (fun p => enc_step_zst (fst p) (snd p)) l)
+                   ++ [N.of_nat (total_leaked l)]))
+  end.
